@@ -1030,11 +1030,31 @@ func collect(roots ...any) (lists []at.List, objs []at.Object) {
 // genPath walks down from c and renders a tree-form path; with some probability it ends in a step that does not resolve.
 func genPath(d drawer, c any) string {
 	var b strings.Builder
+	// a third of the paths head for nested containers at every level (long paths are otherwise rare: every level has more scalars than containers)
+	deep := d.Draw("path-deep", 3) == 0
+	isContainer := func(v any) bool {
+		switch v.(type) {
+		case at.List, at.Object:
+			return true
+		}
+		return false
+	}
 	for depth := 0; depth < 9; depth++ {
 		switch x := c.(type) {
 		case at.List:
 			n := x.Count()
 			i := d.Draw("path-idx", n+1)
+			if deep {
+				var cs []int
+				for j := 0; j < n && j < 64; j++ {
+					if isContainer(x.Get(j)) {
+						cs = append(cs, j)
+					}
+				}
+				if len(cs) > 0 {
+					i = cs[i%len(cs)]
+				}
+			}
 			b.WriteString("#" + strconv.Itoa(i))
 			if i >= n {
 				return b.String()
@@ -1047,6 +1067,17 @@ func genPath(d drawer, c any) string {
 				k = "nokey"
 			} else {
 				k = keys[d.Draw("path-key", len(keys))]
+				if deep {
+					var cs []string
+					for _, kk := range keys {
+						if len(cs) < 64 && isContainer(x.Get(kk)) && kk != "" && !strings.ContainsAny(kk, ".#") {
+							cs = append(cs, kk)
+						}
+					}
+					if len(cs) > 0 {
+						k = cs[len(k)%len(cs)]
+					}
+				}
 			}
 			if k == "" || strings.ContainsAny(k, ".#") {
 				k = "nokey"
@@ -1059,7 +1090,7 @@ func genPath(d drawer, c any) string {
 		default:
 			return b.String()
 		}
-		if d.Draw("path-stop", 5) == 0 {
+		if d.Draw("path-stop", 5) == 0 && !(deep && depth < 4) {
 			break
 		}
 	}
@@ -1166,7 +1197,7 @@ func readers(s *simrt.Sim, top *asyncClient, sameCall bool, trace *[]string) []*
 		roots = append(roots, wl, wo)
 		top.ops["probe:readers-wide-heap"]++
 	}
-	if s.Draw("readers-deep", 4) == 0 {
+	if s.Draw("readers-deep", 3) == 0 {
 		// a chain of nested containers, so that tree-form reads with many segments exist
 		var inner any = at.NewList("leaf", 1)
 		for i := 0; i < 4+s.Draw("deep-n", 5); i++ {
